@@ -11,6 +11,44 @@ from .common import MachineryError, canon, first_diff
 from .rng import HarnessError
 
 
+class CaseTimeout(Exception):
+    pass
+
+
+GLOBAL_DEADLINE = [None]          # set by run.py: absolute time at which the whole run is given up (exit 2)
+
+
+class case_time_limit:
+    """SIGALRM-based limit for one execution of the real code; the global alarm of run.py is re-armed afterwards"""
+
+    def __enter__(self):
+        import signal
+        self.limit = int(os.environ.get("VERIF_CASE_TIMEOUT", "120" if os.environ.get("VERIF_TIER", "quick") == "quick" else "600"))
+        self.prev = signal.getsignal(signal.SIGALRM)
+        if GLOBAL_DEADLINE[0] is None or not callable(self.prev):
+            self.active = False
+            return self
+        self.active = True
+        remaining = GLOBAL_DEADLINE[0] - time.time()
+        if remaining <= self.limit + 1:
+            self.active = False              # the global alarm is closer than the case limit: leave it in charge
+            return self
+
+        def on_case_alarm(*_):
+            raise CaseTimeout(self.limit)
+        signal.signal(signal.SIGALRM, on_case_alarm)
+        signal.alarm(self.limit)
+        return self
+
+    def __exit__(self, *exc):
+        import signal
+        if self.active:
+            signal.alarm(0)
+            signal.signal(signal.SIGALRM, self.prev)
+            signal.alarm(max(1, int(GLOBAL_DEADLINE[0] - time.time())))
+        return False
+
+
 class Prop:
     pid = "C00"
     title = ""
@@ -79,9 +117,13 @@ class Prop:
 
     def safe_impl(self, case):
         try:
-            return canon(self.impl(case))
+            with case_time_limit():
+                return canon(self.impl(case))
         except MachineryError:
             raise
+        except CaseTimeout as e:
+            # not an observation of the property: the case was not seen to its end (never an oracle verdict)
+            return {"harness_error": f"the case did not finish within {e.args[0]} s (per-case limit of the harness)"}
         except Exception as e:
             tb = traceback.format_exc().strip().split("\n")
             frames = traceback.extract_tb(e.__traceback__)
@@ -115,11 +157,12 @@ def write_replay(prop, kind, seed, payload):
 def shrink_case(prop, case, still_fails, limit=300):
     n = 0
     changed = True
-    while changed and n < limit:
+    t_end = time.time() + (90 if os.environ.get("VERIF_TIER", "quick") == "quick" else 600)      # shrinking is a convenience
+    while changed and n < limit and time.time() < t_end:
         changed = False
         for c in prop.shrink(case):
             n += 1
-            if n >= limit:
+            if n >= limit or time.time() > t_end:
                 break
             try:
                 if still_fails(c):
@@ -227,12 +270,23 @@ def run(prop, tier, seed, replay=None):
     oracle_fail = []
     unjudged = []        # (index, why): the oracle could not be applied — a broken correspondence, never a verdict
     keys = set()
+    n_new_failures = 0
     for i, c in enumerate(cases):
+        if n_new_failures >= 8 and time.time() - t0 > 60:
+            # enough counter-examples that are not known findings, and the run is getting long: go to the verdict
+            _hist_add(hist, "cases_not_run_after_repeated_failures", len(cases) - i)
+            cases = cases[:i]
+            break
         o = prop.safe_impl(c)
         obss.append(o)
         fails = judge(prop, c, o, unjudged, i)
         if fails:
             oracle_fail.append((i, fails))
+            try:
+                if not any(k.get("fingerprint") == prop.fingerprint(c, o, fails) for k in known):
+                    n_new_failures += 1
+            except Exception:
+                n_new_failures += 1
         try:
             prop.stats(c, o, hist)
             if prop.nontrivial(c, o):
